@@ -52,3 +52,8 @@ CORPUS += [
     M("temperature-wrong-attr", "msmart/device/AC/device.py", "cmd.target_temperature = or_default(self._target_temperature, 25)", "cmd.target_temperature = or_default(self._indoor_temperature, 25)"),
     M("n-power-or-false", "msmart/device/AC/device.py", "cmd.power_on = or_default(self._power_state, False)", "cmd.power_on = self._power_state or False", "S"),
 ]
+# round 8 (C10.f): deprecated aliases are transparent; a setter writes no other requested setting
+CORPUS += [
+    M("deprecated-forwards-first-call-only", "msmart/utils.py", "                setattr(func, \"_warn_deprecate\", True)\n\n            return func(*args, **kwargs)", "                setattr(func, \"_warn_deprecate\", True)\n                return func(*args, **kwargs)"),
+    M("eco-setter-clears-turbo", "msmart/device/AC/device.py", "    @eco.setter\n    def eco(self, enabled: bool) -> None:\n        self._eco = enabled", "    @eco.setter\n    def eco(self, enabled: bool) -> None:\n        self._eco = enabled\n        if enabled:\n            self._turbo = False"),
+]
